@@ -314,6 +314,10 @@ func genOptionsCase(r *rand.Rand, w *bufio.Writer) {
 		p := r.Intn(len(front) + 1)
 		front = append(front[:p], append([][]string{cfg}, front[p:]...)...)
 	}
+	if haveFile && !useCfg && special == "" && r.Intn(3) == 0 {
+		// near misses at the very end: words that are not the config flag (no dash: ends the flags) must not locate the file
+		back = append(back, []string{"\x01" + []string{"config=", "=", "x-config="}[r.Intn(3)]})
+	}
 	if r.Intn(60) == 0 && special == "" {
 		// the config flag without a value as the very last word
 		back = append(back, []string{[]string{"-config", "--config"}[r.Intn(2)]})
